@@ -14,6 +14,18 @@ CHECKS = {
     "C02": dict(engine="E-SPEC x E-DATA", cat="exploration",
                 text="Templates x subsets of ranks x shape-partitioning stacks (uniform/nway, literal/oversized/symbolic sizes, 1-3 levels) x loop orders over the rank levels x extents x all presence patterns; output under its declared name, rank ids and original coordinates must equal the dense evaluation.",
                 note=REF, tech="bounded exhaustive enumeration of configurations x inputs against a reference model"),
+    "C03": dict(engine="E-SPEC x E-DATA", cat="exploration",
+                text="Product Einsums x (rank, every leader holding it) x occupancy stacks (1-3 levels, beneath a shape split, mixed leaders) x flatten tuples of 2-3 ranks of one tensor (incl. a partition level) optionally followed by occupancy partitioning of the flattened rank x all level-monotone loop orders x extents x all presence patterns; sigma/extensor/demo mappings with every size of the menu. Output must equal the dense evaluation; only the stated rejections are tolerated.",
+                note=REF, tech="bounded exhaustive enumeration of configurations x inputs against a reference model"),
+    "C04": dict(engine="E-SPEC x E-DATA", cat="exploration",
+                text="Affine Einsums (1-D convolution with strides/dilations, subsampling, 3-variable access, 2-D convolution) x every legal loop order x shape stacks on the output rank with follow() x shape-consistent extents (W and W+1) x all presence patterns, each under both halo policies; a pattern is reported only if it fails under both. The current tree violates the property (F1,F2,F3,F11,F13): those specific inputs are recorded by configuration key + failing-pattern bitmap, every other failing pattern or configuration is a VIOLATION.",
+                note=REF + "; halo partition-creation policy of splitUniform is ambiguous, hence the dual-policy rule", tech="bounded exhaustive enumeration of configurations x inputs against a reference model"),
+    "C05": dict(engine="E-HIST", cat="model_checking",
+                text="All cascades (histories) of Einsum events up to depth 2 (quick) / 3 (thorough) over a 16-19 event alphabet, each event with its own mapping and reading a declared input or any earlier output of the right shape; every transition compiles the extended cascade with the real HiFiber and checks prefix closure, equality with the stand-alone compilation up to temporaries, chained dense semantics on all presence patterns, and that all shared Tensor objects are back in their initial state.",
+                note=REF + "; histories bounded by depth", tech="exhaustive exploration of operation histories on the implementation with differential and reference-model oracles"),
+    "C07": dict(engine="E-SPEC x E-DATA", cat="exploration",
+                text="A slice of the C01-C04 universes x all presence patterns of small extents; the oracle inspects the final global namespace of the reference-model run: every <Name>_<Ranks> variable's rank ids spell <Ranks>, each result is bound under its declared/rank-order name with integer in-extent coordinates, every input variable and input object is unchanged.",
+                note=REF + "; aliasing semantics of the model: setRankIds in place, fromFiber/getRoot alias, other transformations copy", tech="bounded exhaustive enumeration of configurations x inputs; namespace oracle"),
     "C13": dict(engine="E-HIST", cat="model_checking",
                 text="Every history of Einsum events (config x temporal prefix x functional-component binding set) up to depth 2 over the full alphabet and depth 3/4 over a 16-event alphabet is driven through the real Program/Hardware/Fusion objects; the blocks (and the metrics[\"blocks\"] literal of the emitted dump) are judged by an independent reference of the legality rules.",
                 note="bounded: histories up to the stated depth; space ranks a suffix of the loop order; functional component = FunctionalComponent subclasses",
